@@ -367,10 +367,17 @@ type Stats struct {
 
 // Cache is a 'cache map'.
 type Cache struct {
-	mu     sync.RWMutex
-	mHead  unsafe.Pointer // *mNode
-	cacher Cacher
-	closed bool
+	mu sync.RWMutex
+	// unrefMu excludes the last release of a handle (Node.unRefExternal) from
+	// Close. It is distinct from mu because such a release may happen while mu
+	// is already read-locked by the same goroutine (Get -> Cacher.Promote ->
+	// evicted Handle.Release), and a sync.RWMutex must not be read-locked
+	// recursively: a Close arriving in between would block both forever.
+	// Lock order: mu, then unrefMu.
+	unrefMu sync.RWMutex
+	mHead   unsafe.Pointer // *mNode
+	cacher  Cacher
+	closed  bool
 
 	statNodes  int64
 	statSize   int64
@@ -645,13 +652,17 @@ func (r *Cache) EvictAll() {
 // even if the 'node ref' is not zero.
 func (r *Cache) Close(force bool) {
 	var head *mHead
-	// Hold RW-lock to make sure no more in-flight operations.
+	// Hold RW-lock to make sure no more in-flight operations. Once mu is
+	// write-locked no goroutine is inside a Cache method, so whoever holds
+	// unrefMu for reading holds nothing else and will finish.
 	r.mu.Lock()
+	r.unrefMu.Lock()
 	if !r.closed {
 		r.closed = true
 		head = (*mHead)(atomic.LoadPointer(&r.mHead))
 		atomic.StorePointer(&r.mHead, nil)
 	}
+	r.unrefMu.Unlock()
 	r.mu.Unlock()
 
 	if head != nil {
@@ -757,7 +768,9 @@ func (n *Node) unRefInternal(updateStat bool) {
 
 func (n *Node) unRefExternal() {
 	if atomic.AddInt32(&n.ref, -1) == 0 {
-		n.r.mu.RLock()
+		// Not n.r.mu: the caller may be a Cacher called from a Cache method
+		// that holds n.r.mu for reading, see Cache.unrefMu.
+		n.r.unrefMu.RLock()
 		if n.r.closed {
 			// The node may have been revived before the cache was closed,
 			// its value then belongs to the new handle. No reference can be
@@ -769,7 +782,7 @@ func (n *Node) unRefExternal() {
 			n.r.delete(n)
 			atomic.AddInt64(&n.r.statDel, 1)
 		}
-		n.r.mu.RUnlock()
+		n.r.unrefMu.RUnlock()
 	}
 }
 
